@@ -22,11 +22,12 @@ def seg_unit(uid, fn, var, fold, skip_rw, bad_hint):
         begin='''    proof { reveal_strlit(""); reveal_strlit("."); reveal_strlit("..");
         assert(""@ =~= Seq::<char>::empty()); assert("."@ =~= seq!['.']); assert(".."@ =~= seq!['.', '.']); }
     let ghost orig = %s@;''' % var,
-        rw=[('R3', r"%s\.trim_matches\('/'\)" % var, "x_trim_matches(%s, '/')" % var, '*'),
-            ('R3', r"for segment in %s\.split\('/'\)" % var, "let pieces = x_split(%s, '/');\n    let ghost ps = split_spec(%s@, '/');\n    for segment in it: pieces" % (var, var), 1),
+        rw=[('R3', r"%s\.trim_matches\(('.')\)" % var, r"x_trim_matches(%s, \1)" % var, '*'),
+            ('R3', r"%s\.trim_start_matches\(('.')\)" % var, r"x_trim_start_matches(%s, \1)" % var, '*'),
+            ('R3', r"for segment in %s\.split\(('.')\)" % var, r"let pieces = x_split(%s, \1);\n    let ghost ps = split_spec(%s@, \1);\n    for segment in it: pieces" % (var, var), 1),
             ] + skip_rw + [
             ('R7', '@continue', ''),
-            ('R3', r"decoded\.contains\('/'\)", "x_str_contains_char(&decoded, '/')", '*'),
+            ('R3', r"decoded\.contains\(('.')\)", r"x_str_contains_char(&decoded, \1)", '*'),
             ('R3', r'\[(".*?"), (".*?")\]\.contains\(&&\*decoded\)', r'x_is_one_of2(&decoded, \1, \2)', '*'),
             ('R4', r'write!\(rebuilt, "\{\}", decoded\)\.unwrap\(\);', 'x_push_display(&mut rebuilt, &decoded);', '*'),
         ],
